@@ -40,7 +40,7 @@ def eval_int(e: ast.AST, L: int, fn: ast.FunctionDef, depth: int = 0) -> Optiona
             return None
         return eval_int(e.body if t else e.orelse, L, fn, depth)
     if isinstance(e, ast.Name) and depth < 4:
-        vals = _assigned_values(e.id, fn)
+        vals = _assigned_values(e.id, fn, L)
         if len(vals) == 1:
             return eval_int(vals[0], L, fn, depth + 1)
     return None
@@ -78,24 +78,43 @@ def eval_bool(e: ast.AST, L: int, fn: ast.FunctionDef, depth: int = 0) -> Option
     return None
 
 
-def _assigned_values(name: str, fn: ast.FunctionDef) -> List[ast.AST]:
-    out: List[ast.AST] = []
+def _assigned_values(name: str, fn: ast.FunctionDef, L: Optional[int] = None) -> List[ast.AST]:
+    """Values assigned to `name` in fn.  With L given, assignments sitting under conditions that
+    fold to false for len(p) == L are left out (if len(p) == 6: i = 2 else: i = 3)."""
+    vals = _assigned_values_all(name, fn)
+    if L is None or len(vals) <= 1:
+        return [v for v, _ in vals]
+    live = []
+    for v, node in vals:
+        dead = False
+        for t, truth in facts_at(node, fn):
+            b = eval_bool(t, L, fn, 3)
+            if b is not None and b != truth:
+                dead = True
+                break
+        if not dead:
+            live.append(v)
+    return live
+
+
+def _assigned_values_all(name: str, fn: ast.FunctionDef) -> List[Tuple[ast.AST, ast.AST]]:
+    out: List[Tuple[ast.AST, ast.AST]] = []
     for n in ast.walk(fn):
         if isinstance(n, ast.Assign):
             for t in n.targets:
                 if isinstance(t, ast.Name) and t.id == name:
-                    out.append(n.value)
+                    out.append((n.value, n))
                 elif isinstance(t, ast.Tuple) and isinstance(n.value, ast.Tuple) and len(t.elts) == len(n.value.elts):
                     for a, b in zip(t.elts, n.value.elts):
                         if isinstance(a, ast.Name) and a.id == name:
-                            out.append(b)
+                            out.append((b, n))
                 elif isinstance(t, ast.Tuple) and isinstance(n.value, ast.IfExp) and isinstance(n.value.body, ast.Tuple) and isinstance(n.value.orelse, ast.Tuple) and len(t.elts) == len(n.value.body.elts) == len(n.value.orelse.elts):
                     # a, b = (x1, y1) if c else (x2, y2)
                     for i, a in enumerate(t.elts):
                         if isinstance(a, ast.Name) and a.id == name:
-                            out.append(ast.copy_location(ast.IfExp(test=n.value.test, body=n.value.body.elts[i], orelse=n.value.orelse.elts[i]), n.value))
+                            out.append((ast.copy_location(ast.IfExp(test=n.value.test, body=n.value.body.elts[i], orelse=n.value.orelse.elts[i]), n.value), n))
         elif isinstance(n, ast.AnnAssign) and isinstance(n.target, ast.Name) and n.target.id == name and n.value is not None:
-            out.append(n.value)
+            out.append((n.value, n))
     return out
 
 
@@ -948,24 +967,39 @@ def b3(repo: Repo) -> RuleResult:
         res.unsure("B3: optional_extensible_flag action vanished")
     else:
         fn = act.node
-        ok = False
-        for n in ast.walk(fn):
-            if isinstance(n, ast.If) and n.body and isinstance(n.body[-1], ast.Raise):
-                exc = n.body[-1].exc
-                if isinstance(exc, ast.Call) and "ExtensibleGrammarFoundInTraditionalMode" in src_of(exc.func):
-                    # test must be  <marker present> and self.traditional_mode
-                    parts = n.test.values if isinstance(n.test, ast.BoolOp) and isinstance(n.test.op, ast.And) else [n.test]
-                    has_mode = any(src_of(x) == "self.traditional_mode" for x in parts)
-                    others = [x for x in parts if src_of(x) != "self.traditional_mode"]
-                    marker_ok = all(eval_bool(x, 2, fn) is True and eval_bool(x, 1, fn) is False for x in others)
-                    if has_mode and marker_ok:
-                        ok = True
+        # decided per alternative (len(p) == 2: marker present, len(p) == 1: absent) on the action's paths
+        from .flows import compiler_flow as _cf3
+        from .fold import by_name as _bn3, lit_value as _lv3
+        from .normal import V as _V3
+
+        ok = True
+        good = True
+        n_store = 0
+        try:
+            fl3 = _cf3(repo, "Parser", "parser.py", inline=lambda n_, f_: n_.startswith("_"))
+            prm3 = [a_.arg for a_ in fn.args.args]
+            paths3 = fl3.run(fn, {prm3[0]: _V3("self"), prm3[1]: _V3("p")})
+            for L3, present in ((2, True), (1, False)):
+                for mode in (True, False):
+                    repl3 = _bn3({"self.traditional_mode": int(mode)}, {"len": L3})
+                    live = [p_ for p_ in paths3 if all(_lv3(k_, t_, repl3) is not False for k_, t_ in p_.guards)]
+                    if any(_lv3(k_, t_, repl3) is None for p_ in live for k_, t_ in p_.guards) or len(live) != 1:
+                        res.unsure(f"B3: {act.name}: not decided by (alternative, traditional_mode) for len(p) = {L3}, traditional_mode = {mode}")
+                        continue
+                    p_ = live[0]
+                    raised = p_.done == "raise" and any(e.kind == "raise" and "ExtensibleGrammarFoundInTraditionalMode" in e.name for e in p_.effects)
+                    if raised != (present and mode):
+                        ok = False
+                    if not raised:
+                        st3 = [e for e in p_.effects if e.kind == "store" and e.name == prm3[1] and e.args and e.args[0].const_value() == 0]
+                        n_store += len(st3)
+                        if not st3 or st3[-1].args[1].const_value() != int(present):
+                            good = False
+        except Inconclusive as e:
+            res.unsure(f"B3: {act.name}: {e}")
         if not ok:
-            res.bad(Finding("B3", PARSER, fn.lineno, f"Parser.{act.name}", "", "the action does not raise ExtensibleGrammarFoundInTraditionalMode exactly when the marker is present and traditional_mode is set", witness="`bitproto c x.bitproto -O` on a schema with `'`", tag="traditional-raise"))
-        # value: p[0] is the boolean "marker present"
-        stores = [n for n in ast.walk(fn) if isinstance(n, ast.Assign) and any(_is_p0(t) for t in n.targets)]
-        good = len(stores) >= 1 and all(eval_bool(s.value, 2, fn) is True and eval_bool(s.value, 1, fn) is False for s in stores)
-        res.inst(part="extensible-marker", value_stores=len(stores))
+            res.bad(Finding("B3", PARSER, fn.lineno, f"Parser.{act.name}", "", "the action does not raise ExtensibleGrammarFoundInTraditionalMode exactly when the marker is present and traditional_mode is set", witness="`bitproto c x.bitproto -O` on a schema with an extensible message is accepted", tag="extensible-guard"))
+        res.inst(part="extensible-marker", value_stores=n_store)
         if not good:
             res.bad(Finding("B3", PARSER, fn.lineno, f"Parser.{act.name}", "", "p[0] is not `marker present` (True for the 1-symbol alternative, False for the empty one)", tag="extensible-value"))
     return res
@@ -1029,20 +1063,34 @@ def b4(repo: Repo) -> RuleResult:
                 if ch is None or ch not in OPS or act is None:
                     res.unsure(f"B4: operator token {tok} regex {rx!r} is not a single known character")
                     continue
-                stores = [n for n in ast.walk(act.node) if isinstance(n, ast.Assign) and any(_is_p0(t) for t in n.targets)]
-                if len(stores) != 1:
-                    res.unsure(f"B4: {act.name} has {len(stores)} assignments to p[0]")
+                from .flows import compiler_flow as _cf4
+                from .normal import V as _V4
+                from .normal import show as _sh4
+
+                try:
+                    fl4 = _cf4(repo, "Parser", "parser.py", inline=lambda n_, f_: n_.startswith("_"))
+                    prm4 = [a_.arg for a_ in act.node.args.args]
+                    vals4 = []
+                    for p_ in fl4.run(act.node, {prm4[0]: _V4("self"), prm4[1]: _V4("p")}):
+                        if p_.done != "return":
+                            continue
+                        st4 = [e for e in p_.effects if e.kind == "store" and e.name == prm4[1] and e.args and e.args[0].const_value() == 0]
+                        vals4.append(_sh4(st4[-1].args[1]) if st4 else None)
+                except Inconclusive as e:
+                    res.unsure(f"B4: {act.name}: {e}")
                     continue
-                v = stores[0].value
-                if isinstance(v, ast.Call) and isinstance(v.func, ast.Name) and v.func.id == "int" and len(v.args) == 1:
-                    v = v.args[0]
-                ok = isinstance(v, ast.BinOp) and src_of(v.left) == "p[1]" and src_of(v.right) == "p[3]" and isinstance(v.op, OPS[ch])
-                if not ok and isinstance(v, ast.BinOp) and ch in "+*" and src_of(v.left) == "p[3]" and src_of(v.right) == "p[1]" and isinstance(v.op, OPS[ch]):
-                    ok = True  # commutative
+                want4 = {"+": ("p[1] + p[3]",), "-": ("p[1] - p[3]",), "*": ("p[1]*p[3]",), "/": ("floordiv(p[1], p[3])",)}[ch]
+                ok = bool(vals4) and all(v_ in want4 for v_ in vals4)
+
+                class _S:
+                    lineno = act.node.lineno
+
+                stores = [_S()]
+                _shown = str(vals4)
                 if not ok:
                     res.bad(
                         Finding(
-                            "B4", PARSER, stores[0].lineno, f"Parser.{act.name}", src_of(stores[0]),
+                            "B4", PARSER, stores[0].lineno, f"Parser.{act.name}", _shown,
                             f"the action for `{ch}` must compute p[1] {ch if ch != '/' else '//'} p[3] (operands in order, integer division)",
                             witness={"+": "const A = 2 + 3", "-": "const A = 5 - 3", "*": "const A = 2 * 3", "/": "const A = 9007199254740993 / 1  or  7 / 2"}[ch],
                             tag=f"{act.name}:operator",
@@ -1082,17 +1130,51 @@ def b4(repo: Repo) -> RuleResult:
         res.bad(Finding("B4", LEXER, 0, "Lexer.t_INT_LITERAL", src_of(iv) if iv else "", "a decimal literal must denote int(text)", witness="const A = 010", tag="int"))
     bv = t_value_expr("BOOL_LITERAL")
     res.inst(part="literal", token="BOOL_LITERAL", value=src_of(bv) if bv else None)
+    # the rule's paths, decided for each of the four words the token can be
     ok = False
-    if isinstance(bv, ast.Compare) and len(bv.ops) == 1 and isinstance(bv.ops[0], ast.In) and src_of(bv.left) == "t.value":
-        try:
-            ok = set(ast.literal_eval(bv.comparators[0])) == {"true", "yes"}
-        except Exception:
-            ok = False
-    if isinstance(bv, ast.Compare) and len(bv.ops) == 1 and isinstance(bv.ops[0], ast.NotIn) and src_of(bv.left) == "t.value":
-        try:
-            ok = set(ast.literal_eval(bv.comparators[0])) == {"false", "no"}
-        except Exception:
-            ok = False
+    try:
+        from .normal import V as _Vb
+        from .normal import show
+        from .pyflow import PyFlow as _PFb, single_atom as _sab, str_of as _sob
+        from .pymodel import get_model as _gmb
+
+        lex_mod = _gmb(repo).mod("bitproto/lexer.py")
+        lex_cls = lex_mod.classes["Lexer"]
+        rule_fn = lex_cls.methods["t_BOOL_LITERAL"].node
+        consts_b = dict(lex_mod.assigns)
+        consts_b.update(lex_cls.attrs_val)
+        flb = _PFb(funcs={}, methods={}, consts=consts_b, havoc_on=())
+        prm_b = [a_.arg for a_ in rule_fn.args.args]
+        paths_b = [p_ for p_ in flb.run(rule_fn, {prm_b[0]: _Vb("self"), prm_b[1]: _Vb("t")}) if p_.done == "return"]
+        verdicts: Dict[str, set] = {}
+        decided = True
+        for w in ("true", "yes", "false", "no"):
+            for p_ in paths_b:
+                feas = True
+                for k_, t_ in p_.guards:
+                    if k_[0] == "in" and show(k_[1]) == "t.value":
+                        if (w in k_[2]) != t_:
+                            feas = False
+                    elif k_[0] == "contains" and show(k_[2]) == "t.value":
+                        ca = _sab(k_[1])
+                        while ca is not None and ca[0] == "call" and ca[1] in ("frozenset", "set", "tuple", "list") and len(ca[2]) == 1:
+                            ca = _sab(ca[2][0])
+                        if ca is None or ca[0] != "tuple" or any(_sob(x) is None for x in ca[1]):
+                            decided = False
+                            continue
+                        if (w in [_sob(x) for x in ca[1]]) != t_:
+                            feas = False
+                    elif k_[0] in ("eq", "cmp"):
+                        decided = False
+                if not feas:
+                    continue
+                val = p_.env.get("t.value")
+                verdicts.setdefault(w, set()).add(val.const_value() if val is not None else None)
+        ok = decided and verdicts.get("true") == {1} and verdicts.get("yes") == {1} and verdicts.get("false") == {0} and verdicts.get("no") == {0}
+        res.inst(part="literal", token="BOOL_LITERAL", denotes={k_: sorted(map(str, v_)) for k_, v_ in verdicts.items()})
+    except (Inconclusive, KeyError) as e:
+        res.unsure(f"B4: t_BOOL_LITERAL: {e}")
+        ok = True
     if not ok:
         res.bad(Finding("B4", LEXER, 0, "Lexer.t_BOOL_LITERAL", src_of(bv) if bv else "", "true/yes must denote True and false/no False", witness="const A = yes", tag="bool"))
     rx = g.t_rules.get("BOOL_LITERAL", ("", None))[0]
